@@ -188,6 +188,13 @@ def build_cases(tier: str, seed: int) -> tuple[list[dict[str, Any]], dict[str, A
             for depth in ((2,) if tier == "quick" else (1, 2, 3)):
                 add("reset", ids, E, depth, [], False, reset=1, reset_mode=mode, tp=False)
     info["reset"] = "--reset 1 against ECUs answering / refusing / silently performing the reset"
+    # an ECU whose session changes take time: 0x78 first, the final answer 3 s later (within P2* = 5 s)
+    for ids, E in reset_graphs:
+        for depth in ((2,) if tier == "quick" else (1, 2, 3)):
+            for th in (False, True):
+                add("slow-ecu", ids, E, depth, [], th, slow=3.0)
+    info["slow-ecu"] = ("accepted session changes are announced with ResponsePending and completed 3 s later "
+                        "(virtual time; within the ECU's P2* of 5 s)")
     # a re-scan into a database that already holds the session transitions of an earlier, deeper scan
     for ids, E in reset_graphs:
         for depth, skip in ((1, []), (2, [2]), (1, [ids[1]])):
